@@ -157,6 +157,13 @@ theorem inv_dropCommit (o : Oracles) (s : St) (i : Inv s) : Inv (dropCommit o s)
   · exact inv_commit o s i
   · exact i
 
+theorem inv_openFile (o : Oracles) (s : St) (i : Inv s) : Inv (openFile o s) := by
+  unfold openFile
+  split
+  · exact i
+  · simp only
+    split <;> exact ⟨i.perm, i.nonempty⟩
+
 theorem inv_step (E : Engine) (o : Oracles) (s : St) (op : Op) (i : Inv s) : Inv (step E o s op).1 := by
   cases op with
   | put ts p u instant trip =>
@@ -198,10 +205,7 @@ theorem inv_step (E : Engine) (o : Oracles) (s : St) (op : Op) (i : Inv s) : Inv
   | commit => exact inv_commit o s i
   | reopen =>
     simp only [step]
-    have := inv_dropCommit o s i
-    split
-    · exact ⟨this.perm, this.nonempty⟩
-    · exact this
+    exact inv_openFile o _ (inv_dropCommit o s i)
   | search q => exact i
 
 /-! ## one step preserves low-equivalence and gives equal results -/
@@ -239,6 +243,18 @@ theorem search_eq (E : Engine) (hE : EngineDet E) (a b : St) (r : Rel a b) (ia :
   apply hE
   have h2 : (flat b.segs).Perm a.docs := by rw [r.docs]; exact ib.perm
   exact ia.perm.trans h2.symm
+
+theorem rel_openFile (o₁ o₂ : Oracles) (a b : St) (r : Rel a b) (ia : Inv a) (ib : Inv b) : Rel (openFile o₁ a) (openFile o₂ b) := by
+  unfold openFile
+  rw [r.lex]
+  split
+  · exact r
+  · simp only
+    rw [r.lexw]
+    split
+    · exact ⟨rfl, r.frames, r.pending, r.wal, r.cards, r.enrich, r.docs, r.seq, r.dirty, rfl, rfl, r.gen, r.stale⟩
+    · refine ⟨rfl, r.frames, r.pending, ?_, r.cards, r.enrich, r.docs, by simp [r.seq], r.dirty, rfl, rfl, r.gen, r.stale⟩
+      simp only [List.map_append, List.map_cons, List.map_nil, Rec.low, map_isEmpty, segs_isEmpty_of_inv ia, segs_isEmpty_of_inv ib, r.docs, r.wal]
 
 set_option hygiene false in
 /-- closes every field of a `Rel` goal between two updated states from the fields of `r : Rel a b` -/
@@ -288,12 +304,7 @@ theorem rel_step (E : Engine) (hE : EngineDet E) (o₁ o₂ : Oracles) (a b : St
   | commit => exact ⟨rel_commit o₁ o₂ a b r ia ib, rfl⟩
   | reopen =>
     simp only [step]
-    have rc := rel_dropCommit o₁ o₂ a b r ia ib
-    refine ⟨?_, trivial⟩
-    rw [rc.lex]
-    split
-    · exact ⟨rfl, rc.frames, rc.pending, rc.wal, rc.cards, rc.enrich, rc.docs, rc.seq, rc.dirty, by simp [rc.lexw], rc.lexw, rc.gen, rc.stale⟩
-    · exact rc
+    exact ⟨rel_openFile o₁ o₂ _ _ (rel_dropCommit o₁ o₂ a b r ia ib) (inv_dropCommit o₁ a ia) (inv_dropCommit o₂ b ib), trivial⟩
   | search q =>
     simp only [step]
     exact ⟨r, by rw [search_eq E hE a b r ia ib q]⟩
@@ -566,7 +577,7 @@ theorem quiet_step (E : Engine) (o : Oracles) (s : St) (op : Op) (q : Quiet s) (
   | card sk v src created => simp [quietOp] at hq
   | commit => exact quiet_commit o s q
   | reopen =>
-    simp only [step]
+    simp only [step, openFile]
     have := quiet_dropCommit o s q
     rw [this.lex]
     exact this
